@@ -3,8 +3,8 @@
 
   seed.py validate <dir-with-out>            confirm in a scratch worktree: applies, builds, suite passes,
                                              demo fails with the change and passes without it
-  seed.py run <patch.diff> <PROP> [tier]     apply to /repo, run ./check, undo straight afterwards
-  seed.py sweep [name...]                    apply every kept change in turn, run its property's quick check, undo;
+  seed.py run <patch.diff> <PROP> [tier]     apply to a scratch worktree of /repo (VERIF_REPO), run ./check, drop the worktree
+  seed.py sweep [name...]                    apply every kept change in turn to a scratch worktree, run its property's quick check, reset;
                                              results in /verif/seeded/RESULTS.json (evidence goes to .build/)
   seed.py keep <dir-with-out> <name>         copy patch/demo/meta to /verif/seeded/<name>/
 """
@@ -89,22 +89,39 @@ def validate(d):
     return 0
 
 
+def scratch_tree():
+    """A scratch worktree of /repo's HEAD (outside /repo and /verif); the checks are pointed at it with VERIF_REPO,
+    so /repo itself is never modified and an interrupted sweep leaves nothing applied there."""
+    base = "/tmp/seedwt-%d" % os.getpid()
+    wt = os.path.join(base, "repo")
+    sh("git -C /repo worktree remove --force %s" % wt)
+    shutil.rmtree(base, ignore_errors=True)
+    os.makedirs(base)
+    rc, o = sh("git -C /repo worktree add --detach %s HEAD" % wt)
+    if rc != 0:
+        raise SystemExit("cannot create scratch worktree: " + o)
+    return wt
+
+
+def drop_tree(wt):
+    sh("git -C /repo worktree remove --force %s" % wt)
+    shutil.rmtree(os.path.dirname(wt), ignore_errors=True)
+    sh("git -C /repo worktree prune")
+
+
 def run(patch, prop, tier="quick"):
     patch = os.path.abspath(patch)
-    rc, o = sh("git -C /repo status --porcelain")
-    if o.strip():
-        print("refusing: /repo working tree is not clean:\n" + o)
-        return 2
-    rc, o = sh("git -C /repo apply %s" % patch)
-    if rc != 0:
-        print("patch does not apply:\n" + o)
-        return 2
+    wt = scratch_tree()
     try:
-        env = dict(os.environ, VERIF_EVIDENCE_DIR=os.path.join(VERIF, ".build", "evidence-seeded"))
+        rc, o = sh("git -C %s apply %s" % (wt, patch))
+        if rc != 0:
+            print("patch does not apply:\n" + o)
+            return 2
+        env = dict(os.environ, VERIF_EVIDENCE_DIR=os.path.join(VERIF, ".build", "evidence-seeded"), VERIF_REPO=wt)
         p = subprocess.run([os.path.join(VERIF, "check"), prop, tier] + sys.argv[5:], cwd=VERIF, env=env)
         rc = p.returncode
     finally:
-        sh("git -C /repo checkout -- . && git -C /repo clean -fdq -- pfcpiface conf cmd pkg internal")
+        drop_tree(wt)
     print("seed.py: check exit", rc)
     return rc
 
@@ -115,11 +132,16 @@ def sweep(names):
     root = os.path.join(VERIF, "seeded")
     path = os.path.join(root, "RESULTS.json")
     results = json.load(open(path)) if os.path.exists(path) else {}
-    rc, o = sh("git -C /repo status --porcelain")
-    if o.strip():
-        print("refusing: /repo working tree is not clean:\n" + o)
-        return 2
     rc, head = sh("git -C /repo rev-parse --short HEAD")
+    wt = scratch_tree()
+    try:
+        return _sweep(names, root, path, results, head, wt)
+    finally:
+        drop_tree(wt)
+
+
+def _sweep(names, root, path, results, head, wt):
+    import re
     for name in sorted(os.listdir(root)):
         d = os.path.join(root, name)
         patch = os.path.join(d, "patch.diff")
@@ -127,37 +149,37 @@ def sweep(names):
             continue
         meta = json.load(open(os.path.join(d, "meta.json")))
         prop = meta["property"]
-        rc, o = sh("git -C /repo apply --check %s" % patch)
+        rc, o = sh("git -C %s apply --check %s" % (wt, patch))
         ported = False
         if rc != 0:
             # the tree has moved on since the change was written (repairs next to it): try a three-way merge with the
             # blobs the patch names; a conflict means the change really no longer applies
-            rc3, o3 = sh("git -C /repo apply -3 %s" % patch)
-            if rc3 != 0 or "<<<<<<<" in sh("git -C /repo diff")[1]:
-                sh("git -C /repo reset -q --hard HEAD")
+            rc3, o3 = sh("git -C %s apply -3 %s" % (wt, patch))
+            if rc3 != 0 or "<<<<<<<" in sh("git -C %s diff" % wt)[1]:
+                sh("git -C %s reset -q --hard HEAD" % wt)
                 results[name] = {"property": prop, "repo_head": head.strip(), "result": "does-not-apply",
                                  "detail": "the patch no longer applies to the repaired tree (see meta.json for its disposition)"}
                 print(name, "does not apply")
                 continue
-            rcb, ob = sh("cd /repo && GOFLAGS=-mod=mod GOPROXY=off go build ./... 2>&1 | tail -3")
+            rcb, ob = sh("cd %s && GOFLAGS=-mod=mod GOPROXY=off go build ./... 2>&1 | tail -3" % wt)
             if "rror" in ob or "cannot" in ob:
-                sh("git -C /repo reset -q --hard HEAD")
+                sh("git -C %s reset -q --hard HEAD" % wt)
                 results[name] = {"property": prop, "repo_head": head.strip(), "result": "does-not-apply",
                                  "detail": "merged three-way but no longer builds on the repaired tree"}
                 print(name, "does not apply (merged, does not build)")
                 continue
             ported = True
         else:
-            sh("git -C /repo apply %s" % patch)
+            sh("git -C %s apply %s" % (wt, patch))
         try:
-            env = dict(os.environ, VERIF_EVIDENCE_DIR=os.path.join(VERIF, ".build", "evidence-seeded"), VERIF_FAILFAST="1")
+            env = dict(os.environ, VERIF_EVIDENCE_DIR=os.path.join(VERIF, ".build", "evidence-seeded"), VERIF_FAILFAST="1", VERIF_REPO=wt)
             import time
             t0 = time.time()
             p = subprocess.run([os.path.join(VERIF, "check"), prop, "quick"], cwd=VERIF, env=env,
                                stdout=subprocess.PIPE, stderr=subprocess.STDOUT, text=True)
             out = p.stdout
         finally:
-            sh("git -C /repo reset -q --hard HEAD && git -C /repo clean -fdq -- pfcpiface conf cmd pkg internal")
+            sh("git -C %s reset -q --hard HEAD && git -C %s clean -fdq" % (wt, wt))
         msg = ""
         for pat in (r"common_test\.go:\d+: (C\d\d/[^\n]*)", r"\[check\] failure: (process died[^\n]*)", r"(C20 violation:[^\n]*)",
                     r"\[check\] failure: ([^\n]*)", r"\[check\] (INCONCLUSIVE[^\n]*)", r"\[check\] (BUILD[^\n]*)"):
